@@ -11,6 +11,7 @@ EXPLANATION = (
     "only after checking the end marker against HEADER_SIZE (or freshly initialising), never truncates and never "
     "blindly re-initialises. The post-crash state equality itself, msync/page-cache semantics and LMDB's crash "
     "consistency are not decided.")
+EXPLANATION += " Also decided: EventStore::new remembers the file's real length, and nothing in pocket-db writes to the file through a file handle."
 ASSUMPTIONS = ["a killed process's dirty shared mappings reach the file (process kill, not power loss)",
                "LMDB commits are atomic (copy-on-write meta page)"]
 
